@@ -3,7 +3,7 @@ from .. import roles
 from ..callgraph import CallGraph
 from ..cfg import DefIndex, dominators, natural_loops, reachable
 from ..facts import KIND, callee, place_fields
-from ..rules import belief
+from ..rules import belief, guards
 from ..rules.cursor import ParserModel
 from ..symex import PathLimit, SymEx
 
@@ -253,6 +253,7 @@ def run(ck, facts, tier):
     from . import c13
 
     c13.rule_token_extent(ck, facts)
+    guards.run(ck, facts, "C03.guarded-index", ["mimium_lang"])
     ck.not_decided("implicit panics (slice/index/overflow asserts) — censused in the evidence counts only")
     ck.not_decided("stack depth for deep nesting; the tokenizer's own termination (chumsky); termination of type inference (dynamic occurs check)")
     ck.not_decided("diagnostic spans lie inside the text on character boundaries (depends on chumsky spans)")
